@@ -1894,7 +1894,13 @@ class PyCdlib:
         if self._rr_moved_rr_name is None:
             self._rr_moved_rr_name = b'rr_moved'
 
-        # No rr_moved found, so we have to create it.
+        # No rr_moved found, so we have to create it.  Creating a directory
+        # changes its parent at once (link counts), so make sure beforehand
+        # that it is not going to be refused as a duplicate.
+        for child in self.pvd.root_directory_record().children:
+            if child.file_ident == self._rr_moved_name or (child.rock_ridge is not None and child.rock_ridge.name() == self._rr_moved_rr_name):
+                raise pycdlibexception.PyCdlibInvalidInput('The name of the Rock Ridge relocation directory is already in use')
+
         rec = dr.DirectoryRecord()
         rec.new_dir(self.pvd, self._rr_moved_name,
                     self.pvd.root_directory_record(),
